@@ -517,7 +517,47 @@ def main():
         macro_half(rep)
     except Unsupported as e:
         rep.inconclusive.append(f'macro half: {e}')
+    try:
+        shared_file_imports(rep, quick)
+    except Unsupported as e:
+        rep.inconclusive.append(f'shared files: {e}')
     return rep.finish()
+
+
+def shared_file_imports(rep, quick):
+    """Files holding several types: the import block of the merged file is the union of what its declarations need (each name once).
+    Reduced C05 cells whose types import DIFFERENT names from the SAME path and from different paths; the canonical-file oracle of
+    props/c05.py implies import closure of the merged file."""
+    from . import c05
+    c05.setup()
+    c05.G['time_budget'] = G.get('time_budget')
+    items5 = []
+    for perm in ([0], [1]):
+        items5.append(dict(k=2, doc0='fixed', body0=1, imps=[[1, 3], [0, 2, 3]], docs=[[0], [0]], generic=[], perms=perm))
+    for perm in range(6):
+        items5.append(dict(k=3, doc0='fixed', body0=0, imps=[[1], [3], [2]] if quick else [[1, 3], [3, 2], [2, 0]], docs=[[0], [0], [0]],
+                           generic=[], perms=[perm]))
+    cand5, cand5_i = [], []
+    for r in par.pmap(c05.explore, items5):
+        cand5 += r.pop('violations', [])
+        cand5_i += r.pop('violations_ident', [])
+        r.pop('known_hits', None)
+        rep.absorb(r)
+    if cand5 and not cand5_i:
+        cand5 = []
+    seen = {}
+    for c in cand5:
+        seen.setdefault(c['what'], c)
+    for c in seen.values():
+        is_viol, details = c05.native_confirm(c)
+        c['native'] = details
+        if is_viol:
+            rep.violations.append({'what': f'merged file is not the union of its types\' imports and declarations: {c["what"]} '
+                                           f'(order {c["order"]}, names {c["names"]})', 'witness': c, 'key': 'shared/' + c['what']})
+        else:
+            rep.inconclusive.append(f'engine counterexample does not reproduce natively: {c["what"]}')
+    rep.functions += describe(c05.G['fns'], ['export_and_merge', 'merge'])
+    rep.bounds['shared_files'] = 'K=2 and K=3 types in one file importing different names from the same path / other paths, every export order (reduced C05 cells)'
 
 
 if __name__ == '__main__':
